@@ -471,7 +471,7 @@ func TestC08Faults(t *testing.T) {
 			func(b byte) byte { return 0 },
 		}
 		for p := 0; p < len(data); p++ {
-			if !ev.Thorough() && (p+seed)%ev.Shards() != ev.Shard() && (p*7+seed)%5 != 0 {
+			if !ev.Thorough() && (p+seed)%ev.Shards() != ev.ShardIndex() && (p*7+seed)%5 != 0 {
 				continue
 			}
 			for vi, vf := range vals {
